@@ -81,3 +81,19 @@ Definition proj (k : nat) (c : gcall) : option call :=
   end.
 Fixpoint project (k : nat) (s : list gcall) : list call :=
   match s with [] => [] | c :: r => match proj k c with Some x => x :: project k r | None => project k r end end.
+
+(* ---- overlay's writers on one blob the lower layer does not hold (D50): a removal is "take it out of the upper layer,
+   then mark it in the deleted index", an upload is "store it in the upper layer, then clear the mark" ---- *)
+Record ov := { ov_up : bool; ov_del : bool }.
+Inductive ostep := RecvUpper | RecvClear | RemUpper | RemMark.
+Definition ov_step (s : ov) (t : ostep) : ov :=
+  match t with
+  | RecvUpper => {| ov_up := true; ov_del := ov_del s |}
+  | RecvClear => {| ov_up := ov_up s; ov_del := false |}
+  | RemUpper => {| ov_up := false; ov_del := ov_del s |}
+  | RemMark => {| ov_up := ov_up s; ov_del := true |}
+  end.
+Definition ov_present (s : ov) : bool := ov_up s && negb (ov_del s).
+Inductive oop := OvRecv | OvRem.
+Definition ov_atomic (o : oop) : list ostep := match o with OvRecv => [RecvUpper; RecvClear] | OvRem => [RemUpper; RemMark] end.
+Definition ov_run (s : ov) (ts : list ostep) : ov := fold_left ov_step ts s.
